@@ -101,3 +101,13 @@ def _has_cycle(u):
     G = nx.DiGraph()
     G.add_edges_from([tuple(e) for e in u["edges"]])
     return not nx.is_directed_acyclic_graph(G)
+
+
+def crossing_routes(u, min_nodes=4):
+    """source-to-sink paths of a DAG entry that are NOT planted routes (they cross from one planted route to another)."""
+    import networkx as nx
+    G = nx.DiGraph([tuple(e) for e in u["edges"]])
+    srcs = [v for v in G if G.in_degree(v) == 0]
+    snks = [v for v in G if G.out_degree(v) == 0]
+    planted = {tuple(p) for p in u["proutes"]}
+    return [p for a in srcs for b in snks for p in nx.all_simple_paths(G, a, b) if tuple(p) not in planted and len(p) >= min_nodes]
